@@ -66,12 +66,16 @@ vars == <<pc, cfg, zs, es, n, K, wang, qs, tgrp, labels, cr, aut, cents, pre>>
 (*   lams   : set of non-zero integers (rescalings of the direction)         *)
 (*   box    : half-width of the boxes searched for representatives          *)
 (*   probes : set of integer vectors x, pden: arbitrary points q = x / pden  *)
+(*   U      : integer unimodular matrix: the crystal is handed in in the     *)
+(*            basis L' = U L (Id3: the catalogue setting); Z, C, dirs,       *)
+(*            probes and S refer to THAT basis                               *)
 -----------------------------------------------------------------------------
 CfgOK(g) ==
   /\ g.entry \in AllNames
   /\ Det(g.S) # 0
   /\ Len(g.Z) = NAtoms(EntryOf(g.entry))
   /\ g.C = TransposeS(g.C)
+  /\ Abs(Det(g.U)) = 1
   /\ \A l \in g.lams : l # 0
   /\ \A d \in g.dirs : d # Zero3
 
@@ -88,7 +92,7 @@ SetNACWith(g) ==
   /\ pc = "choose"
   /\ CfgOK(g)
   /\ cfg' = g
-  /\ LET c == Strip(EntryOf(g.entry))
+  /\ LET c == Sheared(Strip(EntryOf(g.entry)), g.U)      \* g.U = Id3: the catalogue setting
          au == AutFast(c)
          ce == {p[2] : p \in {p \in au : p[1] = Id3}}
          tr == TransGroup(c, ce, g.S, g.box)
@@ -180,6 +184,20 @@ ReqSymmetric ==
 ReqAcoustic ==
   pc = "gamma" => \A jp \in 1..NAtoms(cr) :
      SumFn([j \in 1..NAtoms(cr) |-> K.P[j][jp]], 1..NAtoms(cr)) = ZeroM
+(* invariance under the choice of basis: with L' = U L a direction has coordinates n' = U n, the tensors are   *)
+(* Zh' = U^-T Zh U^T, Cc' = U^-T Cc U^-1 and K' = U K U^T - i.e. K(n) is one Cartesian object.  Checked by     *)
+(* transforming the tensors back to the catalogue setting and recomputing K there.                              *)
+ReqBasisCovariant ==
+  pc = "gamma" =>
+     LET U == cfg.U
+         Ui == UniInvS(U)
+         c0 == Strip(EntryOf(cfg.entry))
+         z0 == [num |-> [j \in 1..NAtoms(cr) |-> MatMulS(TransposeS(U), MatMulS(zs.num[j], TransposeS(Ui)))], den |-> zs.den]
+         e0 == [num |-> MatMulS(TransposeS(U), MatMulS(es.num, U)), den |-> es.den]
+         K0 == KofN(c0, z0, e0, MatVecS(Ui, n))
+     IN  /\ K0.c1 = K.c1 /\ K0.c2 = K.c2
+         /\ \A j, jp \in 1..NAtoms(cr) : MatMulS(U, MatMulS(K0.P[j][jp], TransposeS(U))) = K.P[j][jp]
+
 (* zero Born charges: no correction for any direction *)
 ReqZeroBorn ==
   (pc \in {"gamma", "comm", "generic"} /\ \A j \in 1..NAtoms(cr) : IsZeroM(zs.num[j])) => KZero(cr, K)
